@@ -280,6 +280,12 @@ func c13Spaces(tier string) []*explore.Space {
 			}
 		}
 	}
+	// the sequence form p/(s1, s2) as P, relative and absolute prefix
+	for _, pre := range [][]gen.Step{{gen.Ch("*")}, {gen.Ch("a")}, {gen.Dot()}, {gen.St("descendant", "*")}} {
+		for _, sq := range [][]gen.Step{{gen.Ch("a"), gen.Ch("b")}, {gen.Ch("*"), gen.At("*")}, {gen.Ch("text()"), gen.Ch("a")}, {gen.At("a"), gen.Ch("*")}} {
+			idPaths = append(idPaths, &gen.Path{Steps: append(append([]gen.Step{}, pre...), gen.Step{Seq: sq})}, &gen.Path{Abs: true, Steps: append(append([]gen.Step{}, pre...), gen.Step{Seq: sq})})
+		}
+	}
 	if tier == "thorough" {
 		for i := 0; i < len(s2); i += 8 {
 			idPaths = append(idPaths, s2[i])
